@@ -94,19 +94,40 @@ def _nontrivial(case_events):
                                      (e["op"] == "extend" and e["s"] == 1) for e in case_events[1:])
 
 
+def _extended_nonempty(evs, upto):
+    """was a non-empty store extended (Extend::extend / leaf extend via merge_node) before op `upto`?"""
+    filled = {1: False, 2: False}
+    for e in evs[1:upto + 1]:
+        s = e["s"]
+        if e["op"] in ("drain", "intoiter"):
+            filled[s] = False
+        elif e["op"] == "insert":
+            filled[s] = True
+        elif e["op"] == "extend" and e["rows"]:
+            if filled[s]:
+                return True
+            filled[s] = True
+        elif e["op"] == "copy":
+            filled[s] = filled[3 - s]
+    return False
+
+
 def _report(results, viol, events, origin):
     by_case = {c[0]["case"]: c for c in _split_cases(events)}
-    for cid, rule in sorted(viol, key=lambda v: (len(by_case.get(v[0], [])), v[0])):
-        evs = by_case.get(cid, [])
+    for cid, rule, k in sorted(viol, key=lambda v: (v[2], len(by_case.get(v[0], [])), v[0])):
+        evs = by_case.get(cid, [])[:k + 1]       # the case up to the first offending call
         head = evs[0] if evs else {}
         res = results[PID_OF.get(head.get("fam"), "C08")]
         if rule == "partial_cmp-panic-incomparable":
             fp = "ght/partial_cmp/incomparable"
+        elif head.get("ty") == "vchs" and rule in ("get", "contains", "eq") and _extended_nonempty(evs, k):
+            fp = "collections/vchs-extend/nonempty-rehash"
         else:
             fp = "%s/%s/%s" % ("ght" if head.get("fam") == "ght" else "collections", head.get("ty"), rule)
         last = evs[-1] if evs else {}
-        res.violation(fp, "rule %s broken on store type %s in %s case %s; last call %s returned %s"
-                      % (rule, head.get("ty"), origin, cid, last.get("op"), json.dumps(last.get("ret"))[:200]),
+        res.violation(fp, "rule %s broken on store type %s in %s case %s: call #%d %s(%s) returned %s"
+                      % (rule, head.get("ty"), origin, cid, k, last.get("op"),
+                         json.dumps(last.get("row") or last.get("prefix") or ""), json.dumps(last.get("ret"))[:200]),
                       {"ty": head.get("ty"), "ops": _ops_only(evs), "events": evs})
 
 
